@@ -54,6 +54,8 @@ BINARIES = {
     "h_mc": {"flavour": "memcheck", "objects": [("h_fmm_main.cpp", ["VH_MC=1"], "main"), ("h_fmm_tu.cpp", ["VH_DIM=3", "VH_PER=0"], "d3_0"), ("h_fmm_tu.cpp", ["VH_DIM=3", "VH_PER=1"], "d3_1")],
              "about": "Dim-3 slices of h_fmm built without sanitizers and without pattern-initialised locals, run under valgrind memcheck (uninitialised-value use)"},
     "h_num": {"flavour": "plain", "objects": _num_objects(), "cflags": ["-fopenmp"], "ldflags": ["-lpthread", "-lfftw3", "-lfftw3f"], "about": "rotation / uniform kernels and direct P2P routines against long double references (assertions on, -O2)"},
+    "h_num_asan": {"flavour": "asan", "objects": _num_objects(), "cflags": ["-fopenmp"], "ldflags": ["-lpthread", "-lfftw3", "-lfftw3f"], "about": "(ASan+UBSan+LSan build: memory safety of the real kernels; error bounds are not judged in this build) rotation / uniform kernels and direct P2P routines against long double references (assertions on, -O2)"},
+    "h_num_tsan": {"flavour": "tsan", "objects": _num_objects(), "cflags": ["-fopenmp"], "ldflags": ["-lpthread", "-lfftw3", "-lfftw3f"], "about": "(ThreadSanitizer build, VH_FORCE_WAVE: the real kernels inside the OpenMP executor with unordered tasks released together on real threads) rotation / uniform kernels and direct P2P routines against long double references (assertions on, -O2)"},
     "h_mem": {"flavour": "asan", "objects": [("h_mem.cpp", [], "main")], "about": "TbfMemoryBlock layouts + byte-copied views of cell/particle groups with operators run on the views; viewer bounds hook H1"},
     "h_index": {"flavour": "asan", "objects": _index_objects(), "about": "public index API of Morton (Dim 1..4, periodic or not) and Hilbert (Dim 3) orderings against the coordinate model"},
     "h_sched": {"flavour": "asan", "objects": _sched_objects(0), "cflags": ["-fopenmp"], "ldflags": ["-lpthread"], "about": "OpenMP executors (plain and target/source) linked against the scheduler shim instead of libgomp; hostile schedules; O-dag, O-seq, P-rec; ASan+UBSan"},
@@ -241,8 +243,9 @@ CHECKS = {
         "technique": "runtime monitoring: rotation-kernel FMM results compared with a long double direct sum (error normalised by the sum of absolute pair contributions) under calibrated P-dependent bounds; invariance monitors (grouping, executor via scheduler shim, linearity in the charges); periodic variant against the explicit image sum",
         "claim": "On every explored input (cubic boxes of any centre/width, points on cell faces/centres/axes, either charge sign, heights 1..5 quick / 1..7 thorough, P in {4,6,8,12}, float and double) potentials and forces were finite and within the calibrated bound of order P, results were unchanged to rounding by block size, grouping mode, executor and linear splitting of the charges, and the periodic variant matched the explicit sum over the reported images.",
         "note": "Bounds are empirical: 6x the maximum error observed in calibration runs on the repaired tree (bounds.json); they decrease with P.",
-        "jobs": [{"bin": "h_num", "mode": "c04", "env": {"VH_BOUNDS": "/verif/bounds.json"}, "timeout": 3000}],
-        "rule": "case = random charged particle set (7 distributions incl. cell centres and axes) in a random cubic box, rotation kernel of order P, sequential executor; every 3rd case re-run with another block size / mode / the OpenMP executor on the shim; every 5th case linearity; every 4th case periodic with extra levels -1..1(2). non-trivial = height >= 3 (periodic: any); distinct = (P, type, height, N, distribution, case id).",
+        "jobs": [{"bin": "h_num", "mode": "c04", "env": {"VH_BOUNDS": "/verif/bounds.json"}, "timeout": 3000},
+                 {"bin": "h_num_tsan", "mode": "c04", "env": {"VH_BOUNDS": "/verif/bounds.json", "VH_FORCE_WAVE": "1"}, "timeout": 3000, "per_case": True, "stride": 2, "limit": {"quick": 60, "thorough": 400}}],
+        "rule": "a third of the accuracy cases use neutral +q/-q pairs sharing a leaf (cells with exactly zero net charge); a strided subset of the cases also runs in a ThreadSanitizer build where every invariance re-run uses the OpenMP executor with unordered tasks released together on >= 4 real threads (shared scratch state inside a kernel is a data race there). case = random charged particle set (7 distributions incl. cell centres and axes) in a random cubic box, rotation kernel of order P, sequential executor; every 3rd case re-run with another block size / mode / the OpenMP executor on the shim; every 5th case linearity; every 4th case periodic with extra levels -1..1(2). non-trivial = height >= 3 (periodic: any); distinct = (P, type, height, N, distribution, case id).",
         "require_events": ["targets-compared", "fmm-runs", "invariance-pairs", "periodic-runs"],
         "assumptions": ["accuracy bounds are calibrated, not derived"],
     },
@@ -251,8 +254,9 @@ CHECKS = {
         "technique": "runtime monitoring: uniform-kernel FMM results compared with a long double direct sum under calibrated order-dependent bounds; invariance monitors incl. cell-by-cell parent expansions with children delivered one at a time vs all at once; target/source and periodic variants",
         "claim": "On every explored input (orders 3..8, float and double, heights 1..5 quick / 1..6 thorough) potentials and forces were finite and within the calibrated bound of the order, unchanged to rounding by block size, grouping mode and executor; parent expansions were equal to rounding whether children arrived in one batch or one by one; target/source and periodic variants matched their references.",
         "note": "Bounds are empirical (bounds.json), 6x the calibration maximum.",
-        "jobs": [{"bin": "h_num", "mode": "c05", "env": {"VH_BOUNDS": "/verif/bounds.json"}, "timeout": 3000}],
-        "rule": "case = random charged particle set in a random cubic box, FUnifKernel<FInterpMatrixKernelR> of the given order; every 3rd accuracy case re-run with block size 1 or one huge block and another executor, comparing results and every cell's multipole expansion; every 5th case periodic, every 5th target/source. non-trivial = height >= 3 (periodic: any); distinct = (order, type, height, N, distribution, case id).",
+        "jobs": [{"bin": "h_num", "mode": "c05", "env": {"VH_BOUNDS": "/verif/bounds.json"}, "timeout": 3000},
+                 {"bin": "h_num_tsan", "mode": "c05", "env": {"VH_BOUNDS": "/verif/bounds.json", "VH_FORCE_WAVE": "1"}, "timeout": 3000, "per_case": True, "stride": 2, "limit": {"quick": 60, "thorough": 400}}],
+        "rule": "every second periodic case is a periodic target/source case (periodic ordering, target/source tree, executor and top tree) against the explicit image sum. a third of the accuracy cases use neutral +q/-q pairs sharing a leaf (cells with exactly zero net charge); a strided subset of the cases also runs in a ThreadSanitizer build where every invariance re-run uses the OpenMP executor with unordered tasks released together on >= 4 real threads (shared scratch state inside a kernel is a data race there). case = random charged particle set in a random cubic box, FUnifKernel<FInterpMatrixKernelR> of the given order; every 3rd accuracy case re-run with block size 1 or one huge block and another executor, comparing results and every cell's multipole expansion; every 5th case periodic, every 5th target/source. non-trivial = height >= 3 (periodic: any); distinct = (order, type, height, N, distribution, case id).",
         "require_events": ["targets-compared", "fmm-runs", "invariance-pairs", "cells-compared", "periodic-runs", "tsm-runs"],
         "assumptions": ["accuracy bounds are calibrated, not derived"],
     },
@@ -263,11 +267,12 @@ CHECKS = {
         "note": "Only keys produced by a tool (asan/ubsan/lsan/tsan/memcheck/assert/glibcxx-assert/abort/signal/hang) count here; behavioural keys of the same runs belong to their own checks. MSan is not used (uninstrumented libstdc++/FFTW).",
         "jobs": [{"bin": "h_fmm", "mode": "c01"}, {"bin": "h_fmm", "mode": "c09"}, {"bin": "h_fmm", "mode": "c10"}, {"bin": "h_tree", "mode": "c13"},
                  {"bin": "h_sched", "mode": "c03"}, {"bin": "h_sched", "mode": "c09"}, {"bin": "h_sched_tsan", "mode": "c03"}, {"bin": "h_mem", "mode": "c14", "thorough_only": True},
+                 {"bin": "h_num_asan", "mode": "c04", "env": {"VH_BOUNDS": "/verif/bounds.json"}, "timeout": 3000}, {"bin": "h_num_asan", "mode": "c05", "env": {"VH_BOUNDS": "/verif/bounds.json"}, "timeout": 3000}, {"bin": "h_num_asan", "mode": "c20", "env": {"VH_BOUNDS": "/verif/bounds.json"}},
                  {"bin": "h_mc", "mode": "c10", "wrapper": VALGRIND, "per_case": True, "stride": 2, "limit": {"quick": 24, "thorough": 150}, "env": {"VH_CASE_TIMEOUT": "1200", "VH_NO_LEAK_CHECK": "1"}, "timeout": 2400},
                  {"bin": "h_mc", "mode": "c09", "wrapper": VALGRIND, "per_case": True, "stride": 2, "limit": {"quick": 12, "thorough": 80}, "env": {"VH_CASE_TIMEOUT": "1200", "VH_NO_LEAK_CHECK": "1"}, "timeout": 2400},
                  {"bin": "h_mc", "mode": "c01", "wrapper": VALGRIND, "per_case": True, "stride": 2, "limit": {"quick": 12, "thorough": 80}, "env": {"VH_CASE_TIMEOUT": "1200", "VH_NO_LEAK_CHECK": "1"}, "timeout": 2400}],
         "key_filter": ["^(asan|ubsan|lsan|tsan|memcheck|assert|glibcxx-assert|abort|signal|hang|exit):"],
-        "rule": "cases = the quick (resp. thorough) case sets of C01, C09, C10, C13, C03 (ASan+UBSan, TSan for the scheduler runs) and a strided subset of the Dim-3 C01/C09/C10 cases under valgrind memcheck with origin tracking. non-trivial / distinct as in the contributing checks. Evidence lists the jobs and their builds.",
+        "rule": "plus the C04 / C05 / C20 case sets in an ASan+UBSan+LSan build of the numerical engine (h_num_asan: the rotation, uniform and direct P2P kernels themselves; accuracy bounds are not judged in that build). cases = the quick (resp. thorough) case sets of C01, C09, C10, C13, C03 (ASan+UBSan, TSan for the scheduler runs) and a strided subset of the Dim-3 C01/C09/C10 cases under valgrind memcheck with origin tracking. non-trivial / distinct as in the contributing checks. Evidence lists the jobs and their builds.",
         "require_events": ["pairs-checked", "periodic-runs", "rebuild-cycles", "schedules-executed"],
         "assumptions": ["a clean run is 'no report on K executions reaching these operators', not memory safety"],
     },
